@@ -43,9 +43,10 @@ Definition check (c : c04case) : verdict :=
       let lay := layout_ix li in
       let m := bms_read tbl lay max_keys lines in
       let wf := wf_bms_lines lay lines in
-      (* every well-formed text inside the guards must lie in the decidable domain of the theorem bms_read_denotes
-         (Proofs/BMSDenoteProofs.v): this evaluates, per case, the one hypothesis of that theorem that is not proved from
-         wf_bms_lines -- the reader's line loop collects exactly the objects the format assigns to the text *)
+      (* every well-formed text inside the guards lies in the decidable domain of the theorem bms_read_denotes
+         (Proofs/BMSDenoteProofs.v).  This is now a THEOREM (C04_text_in_domain, Proofs/BMSParseProofs.v: the reader's line
+         loop collects exactly the objects the format assigns to the text); the runner keeps evaluating it per case as a
+         redundant runtime cross-check of that proof against the generated texts *)
       let dom := negb (wf && read_guards tbl lines) || read_theorem_domain tbl lay max_keys lines in
       {| corr_ok := dom && match m, out with
                     | None, None => true
